@@ -611,6 +611,13 @@ Proof.
   vm_compute. reflexivity.
 Qed.
 
+(** The same history in the repaired variant (non-vacuity of [spec_refinement_fixed]). *)
+Example ex2_fixed :
+  map fst (run true (Some TRACE) (conf_of_list [all_pass; all_pass; all_pass]) init ex2_history) =
+  [ ONew 0; ONew 1; ONew 2; OUnit; OUnit; ODefault (DCol 1); OUnit; ODefault (DCol 0);
+    OSetGlobal true; OSetGlobal false; ODefault (DCol 2); OUnit ].
+Proof. vm_compute. reflexivity. Qed.
+
 (** * The class is exact: every properly nested history IN the class deviates from the specification
       (so [~ F1_class] in [spec_refinement_unfixed] is not merely sufficient: it is the precise boundary of F1). *)
 Lemma hit_of_true a e t :
@@ -955,3 +962,263 @@ Proof.
   rewrite !E1. simpl. rewrite !N.eqb_refl, ?E1. simpl.
   assert (E2 : (a =? b) = false) by (apply N.eqb_neq; congruence). rewrite ?E2. auto.
 Qed.
+
+(** * Clause-level corollaries for dispatch.rs as it is now (the repaired variant, [fx = true]) *)
+
+Lemma final_app fx sm conf h1 : forall h2 s,
+  final fx sm conf s (h1 ++ h2) = final fx sm conf (final fx sm conf s h1) h2.
+Proof. induction h1 as [|o h1 IH]; intros h2 s; simpl; [reflexivity | apply IH]. Qed.
+Lemma afinal_app h1 : forall h2 a, afinal a (h1 ++ h2) = afinal (afinal a h1) h2.
+Proof. induction h1 as [|o h1 IH]; intros h2 a; simpl; [reflexivity | apply IH]. Qed.
+Lemma Nested_app h1 h2 : Nested (h1 ++ h2) -> Nested h1 /\ Nested h2.
+Proof. unfold Nested. intro H. split; intros t k Hin; apply (H t k); apply in_or_app; auto. Qed.
+
+(** The refinement relation holds after every properly nested history. *)
+Lemma final_sim sm conf h : forall s a e,
+  R_ true s a e -> Nested h -> R_ true (final true sm conf s h) (afinal a h) e.
+Proof.
+  induction h as [|o h IH]; intros s a e HR Hn; simpl; [exact HR|].
+  apply nested_cons in Hn. destruct Hn as [Hno Hn].
+  destruct (step true sm conf s o) as [s' ob] eqn:Es.
+  destruct (astep a o) as [a' ao] eqn:Ea. simpl.
+  assert (Hx : true = false -> snd (f1_step a e o ob) = false) by discriminate.
+  destruct (step_sim true sm conf s a e o s' ob a' ao HR Es Ea Hno Hx) as [_ HR'].
+  apply IH; assumption.
+Qed.
+Lemma final_R sm conf h :
+  Nested h -> R_ true (final true sm conf init h) (afinal ainit h) (fun _ => None).
+Proof. intro Hn. apply final_sim; [apply R_init; reflexivity | exact Hn]. Qed.
+
+(** What get_default hands out is the specification's default: innermost live scope of the thread, else the
+    global default if set, else the no-op dispatcher. *)
+Lemma current_is_spec_default s a e t : R_ true s a e -> current s t = a_default a t.
+Proof.
+  intro HR. destruct (get_default true s t) as [s' d] eqn:E.
+  destruct (get_default_post true s t s' d E) as [Hd _].
+  assert (Hx : true = false -> a_scopes a <> [] -> hit_of a (establish a e t) t = false) by discriminate.
+  destruct (get_default_sim true s a e t s' d HR E Hx) as [Hd' _].
+  congruence.
+Qed.
+
+(** "An emission is handed to the collector installed by the innermost still-live scope of that thread; with no
+    live scope, to the global default when one has been set; otherwise it is discarded" — C01 ∘ C02: who RECEIVES
+    an emission after any properly nested history, in terms of the specification's stacks only. *)
+Definition spec_receiver (sm : levelfilter) (conf : N -> collector) (s : state) (a : astate) (t : N) (cs : callsite) : option N :=
+  match a_default a t with
+  | DCol c => if lvl_le (cs_lvl cs) sm && accepts conf s c cs then Some c else None
+  | DNone => None
+  end.
+Theorem emission_receiver sm conf :
+  (forall c, wf_collector (conf c)) ->
+  forall h t cs, Nested h ->
+  exists con, snd (step true sm conf (final true sm conf init h) (Emit t cs)) =
+              OEmit con (spec_receiver sm conf (final true sm conf init h) (afinal ainit h) t cs).
+Proof.
+  intros WF h t cs Hn.
+  destruct (step true sm conf (final true sm conf init h) (Emit t cs)) as [post ob] eqn:Es.
+  destruct (emission_verdict true sm conf WF h t cs post _ ob eq_refl Es) as [con ->].
+  exists con. simpl. f_equal. unfold own_verdict, spec_receiver.
+  rewrite (current_is_spec_default _ (afinal ainit h) (fun _ => None) t (final_R sm conf h Hn)). reflexivity.
+Qed.
+(** With collectors that accept everything (and the default build) the receiver is exactly the specification's default. *)
+Corollary emission_receiver_unfiltered conf :
+  (forall c cs, c_reg (conf c) cs = always) -> (forall c fl cs, c_en (conf c) fl cs = true) -> (forall c, c_hint (conf c) = None) ->
+  forall h t cs, Nested h ->
+  exists con, snd (step true (Some TRACE) conf (final true (Some TRACE) conf init h) (Emit t cs)) =
+              OEmit con (match a_default (afinal ainit h) t with DCol c => Some c | DNone => None end).
+Proof.
+  intros Hreg Hen Hh h t cs Hn.
+  assert (WF : forall c, wf_collector (conf c)).
+  { intro c. repeat split.
+    - intros cs0 fl H. rewrite Hreg in H. discriminate H.
+    - intros cs0 fl _. apply Hen.
+    - intros h0 cs0 H. rewrite Hh in H. discriminate H. }
+  destruct (emission_receiver (Some TRACE) conf WF h t cs Hn) as [con H]. exists con. rewrite H. f_equal.
+  unfold spec_receiver. destruct (a_default (afinal ainit h) t) as [|c]; [reflexivity|].
+  rewrite lvl_le_trace. unfold accepts. rewrite Hreg. reflexivity.
+Qed.
+
+(** ** "never affect another thread", observably: an op of another thread (or a thread-less op) other than
+    set_global_default leaves the dispatcher handed to thread u unchanged; set_global_default leaves every
+    thread's scope stack unchanged (it only fills the write-once cell that threads WITHOUT a live scope fall back to). *)
+Lemma astep_frame a o u : op_thread o <> Some u -> a_stack (fst (astep a o)) u = a_stack a u.
+Proof.
+  intro Hu. destruct o as [|c|t d|t k|t c|t cs|t cs|t|t| |c]; simpl in *; try reflexivity.
+  - destruct (a_handle a c); reflexivity.
+  - destruct (a_valid a d); [|reflexivity]. simpl. apply a_stack_cons_other. congruence.
+  - destruct (a_stack a t); [reflexivity|]. simpl. unfold a_stack at 1. simpl.
+    rewrite filter_remove_first_other by congruence. reflexivity.
+  - destruct (a_handle a c); [|reflexivity]. destruct (a_global a); reflexivity.
+Qed.
+Lemma astep_global a o : (forall t c, o <> SetGlobal t c) -> a_global (fst (astep a o)) = a_global a.
+Proof.
+  intro H. destruct o as [|c|t d|t k|t c|t cs|t cs|t|t| |c]; simpl; try reflexivity.
+  - destruct (a_handle a c); reflexivity.
+  - destruct (a_valid a d); reflexivity.
+  - destruct (a_stack a t); reflexivity.
+  - exfalso. apply (H t c). reflexivity.
+Qed.
+Theorem isolation_observable sm conf h o u :
+  Nested (h ++ [o]) -> op_thread o <> Some u -> (forall t c, o <> SetGlobal t c) ->
+  current (final true sm conf init (h ++ [o])) u = current (final true sm conf init h) u.
+Proof.
+  intros Hn Hu Hg. destruct (Nested_app _ _ Hn) as [Hn1 _].
+  rewrite (current_is_spec_default _ _ _ u (final_R sm conf _ Hn)).
+  rewrite (current_is_spec_default _ _ _ u (final_R sm conf _ Hn1)).
+  rewrite afinal_app. simpl. unfold a_default.
+  rewrite (astep_frame _ o u Hu), (astep_global _ o Hg). reflexivity.
+Qed.
+Theorem set_global_keeps_scoped_threads sm conf h t c u d stk :
+  Nested (h ++ [SetGlobal t c]) ->
+  a_stack (afinal ainit h) u = d :: stk ->
+  current (final true sm conf init (h ++ [SetGlobal t c])) u = d /\ current (final true sm conf init h) u = d.
+Proof.
+  intros Hn Hs. destruct (Nested_app _ _ Hn) as [Hn1 _].
+  rewrite (current_is_spec_default _ _ _ u (final_R sm conf _ Hn)).
+  rewrite (current_is_spec_default _ _ _ u (final_R sm conf _ Hn1)).
+  rewrite afinal_app.
+  change (afinal (afinal ainit h) [SetGlobal t c]) with (fst (astep (afinal ainit h) (SetGlobal t c))).
+  unfold a_default.
+  rewrite (astep_frame _ (SetGlobal t c) u) by discriminate. rewrite Hs. auto.
+Qed.
+
+(** ** "restored on panic", on the CODE's state (not only the specification's): n set_default calls on a thread
+    followed by the drop of the n guards innermost-first — what unwinding out of nested with_default closures does —
+    leave that thread's thread-local default, its guard list, SCOPED_COUNT and everything else exactly as before. *)
+Lemma tstate_eta st : {| tl := tl st; guards := guards st |} = st.
+Proof. destruct st; reflexivity. Qed.
+Lemma forallb_valid_same s s' ds : handle s' = handle s -> forallb (valid_disp s') ds = forallb (valid_disp s) ds.
+Proof.
+  intro H. induction ds as [|x l IH]; simpl; [reflexivity|]. rewrite IH. f_equal.
+  destruct x; simpl; [reflexivity | rewrite H; reflexivity].
+Qed.
+Theorem unwind_restores_concrete sm conf t ds : forall s,
+  forallb (valid_disp s) ds = true ->
+  let s' := final true sm conf s (map (Open t) ds ++ repeat (Close t 0%nat) (length ds)) in
+  (forall u, tls s' u = tls s u) /\ scoped s' = scoped s /\ global s' = global s /\ handle s' = handle s /\
+  next s' = next s /\ cache s' = cache s /\ max_level s' = max_level s /\ dispatchers s' = dispatchers s.
+Proof.
+  induction ds as [|d ds IH]; intros s Hv; simpl.
+  - repeat split; reflexivity.
+  - simpl in Hv. apply andb_true_iff in Hv. destruct Hv as [Hd Hds].
+    replace (Close t 0%nat :: repeat (Close t 0%nat) (length ds)) with (repeat (Close t 0%nat) (length ds) ++ [Close t 0%nat]).
+    2:{ clear. induction (length ds) as [|n IHn]; simpl; [reflexivity | rewrite IHn; reflexivity]. }
+    rewrite app_assoc, final_app. unfold do_open. rewrite Hd. simpl fst.
+    set (s1 := set_scoped (set_thread s t {| tl := Some d; guards := tl (tls s t) :: guards (tls s t) |}) (S (scoped s))).
+    assert (Hds1 : forallb (valid_disp s1) ds = true).
+    { rewrite (forallb_valid_same s s1) by reflexivity. exact Hds. }
+    destruct (IH s1 Hds1) as (T & S1 & G & H & Nx & C & M & D).
+    set (s2 := final true sm conf s1 (map (Open t) ds ++ repeat (Close t 0%nat) (length ds))) in *.
+    assert (Hg : tls s2 t = {| tl := Some d; guards := tl (tls s t) :: guards (tls s t) |}).
+    { rewrite (T t). unfold s1. simpl. unfold upd. rewrite N.eqb_refl. reflexivity. }
+    simpl. unfold do_close. rewrite Hg. simpl.
+    repeat split.
+    + intro u. unfold upd. destruct (u =? t) eqn:E.
+      * apply N.eqb_eq in E. subst u. apply tstate_eta.
+      * rewrite (T u). unfold s1. simpl. unfold upd. rewrite E. reflexivity.
+    + rewrite S1. reflexivity.
+    + rewrite G. reflexivity.
+    + rewrite H. reflexivity.
+    + rewrite Nx. reflexivity.
+    + rewrite C. reflexivity.
+    + rewrite M. reflexivity.
+    + rewrite D. reflexivity.
+Qed.
+
+(** ** "set_global_default succeeds exactly once", at the granularity of whole calls and for EVERY history (nested
+    or not, both variants): the cell is write-once — at most one call ever returns Ok, every call after it returns
+    Err, and a call made with a live handle while the cell is empty succeeds. *)
+Lemma get_default_global fx s t s' d : get_default fx s t = (s', d) -> global s' = global s.
+Proof. intro H. apply get_default_post in H. destruct H as [_ [->|[-> _]]]; reflexivity. Qed.
+Lemma guard_global fx sm conf s t cs s1 con ok : guard fx sm conf s t cs = (s1, con, ok) -> global s1 = global s.
+Proof.
+  intro H. apply guard_shape in H. destruct H as [[_ (_ & _ & G & _)]|[s0 [d ((_ & _ & G & _) & Hg & _)]]]; [exact G|].
+  rewrite (get_default_global _ _ _ _ _ Hg). exact G.
+Qed.
+Lemma rebuild_global conf s : global (rebuild conf s) = global s.
+Proof. pose proof (rebuild_fields conf s) as (_ & _ & _ & _ & _ & _ & F7 & _). exact F7. Qed.
+Lemma step_global fx sm conf s o :
+  global (fst (step fx sm conf s o)) =
+  match o with
+  | SetGlobal _ c => if handle s c then match global s with None => Some c | Some g => Some g end else global s
+  | _ => global s
+  end.
+Proof.
+  destruct o as [|c|t d|t k|t c|t cs|t cs|t|t| |c]; cbn [step fst].
+  - rewrite rebuild_global. reflexivity.
+  - destruct (handle s c); reflexivity.
+  - unfold do_open. destruct (valid_disp s d); reflexivity.
+  - unfold do_close. destruct (remove_nth k (guards (tls s t))) as [[p gs]|]; reflexivity.
+  - unfold do_set_global. destruct (handle s c); [|reflexivity]. destruct (global s) eqn:Eg; simpl; [exact Eg | reflexivity].
+  - unfold do_emit. destruct (guard fx sm conf s t cs) as [[s1 con] ok] eqn:Eg.
+    pose proof (guard_global _ _ _ _ _ _ _ _ _ Eg) as G1.
+    destruct ok; [|exact G1]. destruct (get_default fx s1 t) as [s2 d] eqn:Ed. simpl.
+    rewrite (get_default_global _ _ _ _ _ Ed). exact G1.
+  - unfold do_probe. destruct (guard fx sm conf s t cs) as [[s1 con] ok] eqn:Eg.
+    pose proof (guard_global _ _ _ _ _ _ _ _ _ Eg) as G1.
+    destruct ok; [|exact G1]. destruct (get_default fx s1 t) as [s2 d] eqn:Ed. simpl.
+    rewrite (get_default_global _ _ _ _ _ Ed). exact G1.
+  - destruct (get_default fx s t) as [s2 d] eqn:Ed. simpl. apply (get_default_global _ _ _ _ _ Ed).
+  - destruct (slow fx s t) as [s2 d] eqn:Ed. simpl. apply slow_post in Ed. destruct Ed as [_ [->|[-> _]]]; reflexivity.
+  - apply rebuild_global.
+  - destruct (c <? next s); reflexivity.
+Qed.
+Definition is_set_ok (ob : obs) : bool := match ob with OSetGlobal true => true | _ => false end.
+Lemma step_set_ok fx sm conf s o :
+  is_set_ok (snd (step fx sm conf s o)) = true ->
+  global s = None /\ exists t c, o = SetGlobal t c /\ handle s c = true /\ global (fst (step fx sm conf s o)) = Some c.
+Proof.
+  destruct o as [|c|t d|t k|t c|t cs|t cs|t|t| |c]; simpl.
+  - discriminate.
+  - destruct (handle s c); discriminate.
+  - unfold do_open. destruct (valid_disp s d); discriminate.
+  - unfold do_close. destruct (remove_nth k (guards (tls s t))) as [[p gs]|]; discriminate.
+  - unfold do_set_global. destruct (handle s c) eqn:Eh; [|discriminate].
+    destruct (global s) eqn:Eg; [discriminate|]. intros _. split; [reflexivity|]. exists t, c. auto.
+  - unfold do_emit. destruct (guard fx sm conf s t cs) as [[s1 con] ok]. destruct ok; [|discriminate].
+    destruct (get_default fx s1 t). discriminate.
+  - unfold do_probe. destruct (guard fx sm conf s t cs) as [[s1 con] ok]. destruct ok; [|discriminate].
+    destruct (get_default fx s1 t). discriminate.
+  - destruct (get_default fx s t). discriminate.
+  - destruct (slow fx s t). discriminate.
+  - discriminate.
+  - destruct (c <? next s); discriminate.
+Qed.
+Lemma global_sticks fx sm conf s o g : global s = Some g -> global (fst (step fx sm conf s o)) = Some g.
+Proof.
+  intro H. rewrite step_global. destruct o; try exact H. destruct (handle s c); [rewrite H; reflexivity | exact H].
+Qed.
+Lemma run_after_set fx sm conf h : forall s g, global s = Some g ->
+  forallb (fun ob => negb (is_set_ok ob)) (map fst (run fx sm conf s h)) = true.
+Proof.
+  induction h as [|o h IH]; intros s g Hg; simpl; [reflexivity|].
+  destruct (step fx sm conf s o) as [s' ob] eqn:Es. simpl.
+  apply andb_true_iff. split.
+  - destruct (is_set_ok ob) eqn:E; [|reflexivity]. exfalso.
+    pose proof (step_set_ok fx sm conf s o) as H. rewrite Es in H. simpl in H. destruct (H E) as [Hn _]. congruence.
+  - apply (IH s' g). pose proof (global_sticks fx sm conf s o g Hg) as H. rewrite Es in H. exact H.
+Qed.
+Theorem set_global_once_history fx sm conf h :
+  (length (filter is_set_ok (map fst (run fx sm conf init h))) <= 1)%nat.
+Proof.
+  assert (G : forall h s, (length (filter is_set_ok (map fst (run fx sm conf s h))) <= 1)%nat).
+  { clear h. induction h as [|o h IH]; intro s; simpl; [lia|].
+    destruct (step fx sm conf s o) as [s' ob] eqn:Es. simpl.
+    destruct (is_set_ok ob) eqn:E; [|apply IH].
+    pose proof (step_set_ok fx sm conf s o) as H. rewrite Es in H. simpl in H.
+    destruct (H E) as (_ & t & c & _ & _ & Hg).
+    pose proof (run_after_set fx sm conf h s' c Hg) as Hno.
+    simpl. replace (filter is_set_ok (map fst (run fx sm conf s' h))) with (@nil obs); [simpl; lia|].
+    symmetry. clear - Hno. induction (map fst (run fx sm conf s' h)) as [|x l IHl]; simpl in *; [reflexivity|].
+    apply andb_true_iff in Hno. destruct Hno as [H1 H2]. destruct (is_set_ok x); [discriminate H1 | apply IHl; exact H2]. }
+  apply G.
+Qed.
+(** ... and it does succeed: an attempt with a live handle while no global default exists returns Ok and installs it. *)
+Theorem set_global_first_attempt_succeeds fx sm conf s t c :
+  global s = None -> handle s c = true ->
+  step fx sm conf s (SetGlobal t c) = (set_global s (Some c), OSetGlobal true).
+Proof. intros Hg Hh. simpl. unfold do_set_global. rewrite Hh, Hg. reflexivity. Qed.
+Theorem set_global_later_attempts_fail fx sm conf s t c g :
+  global s = Some g -> handle s c = true ->
+  step fx sm conf s (SetGlobal t c) = (s, OSetGlobal false).
+Proof. intros Hg Hh. simpl. unfold do_set_global. rewrite Hh, Hg. reflexivity. Qed.
